@@ -100,7 +100,7 @@ CLAIMS = {
         category="fault_enumeration",
         technique="rapid-drawn base cases, then exhaustive enumeration of the fault position k for every fault kind through harness-owned stream/source/callback hooks; termination decided by goroutine-dump quiescence under an explicit transport model; C01's snapshot oracle for 'no false success' and for the follow-up transfer",
         text="For each generated base case (small trees and 150-300-file fan-out, capacities 0/1/32, fresh and dirty destinations, notify on/off) one fault-free run counts the operations; then every position k is run for each kind: stream broken at the k-th SendMsg/RecvMsg of either endpoint, either call's context cancelled after its k-th packet, walk error at entry k, read error after j bytes of file k, ContentHasher/NotifyHashed error at call k. The harness tears an endpoint down only by the fault, its context, or the peer's return; a run is 'stuck' iff every goroutine with an fsutil frame is blocked with an unchanged stack (no wall-clock verdict). Checked per run: both calls return, no fsutil goroutine survives, Receive==nil implies destination equals source, Send==nil implies the receiver's FIN reached it, and a follow-up fault-free transfer into the leftovers succeeds and converges. Exhaustive in k for small cases, strided for large fan-out in the quick tier; schedules are perturbed, not enumerated.",
-        note="SIGKILL of a receiver sub-process is not exercised in this round. Liveness by quiescence cannot see a livelock (no retry loops exist). The thorough tier also runs half of the shards under the race detector.",
+        note="Includes SIGKILL of a receiving sub-process at drawn packet positions. Liveness by quiescence cannot see a livelock (no retry loops exist). The thorough tier also runs half of the shards under the race detector.",
         ref="4 C04"),
     "C08": dict(
         technique="metamorphic testing over schedules: one case executed under M harness-steered schedules (capacities, GOMAXPROCS, seeded per-operation delays, read gates) with outcome equality as the oracle; in-flight counters on the harness stream; Go race detector build on half of the shards",
